@@ -32,18 +32,35 @@ for f in kf:
     ft.append("| %s | %s%s | `%s` | %s |" % (f["property"], f["status"], (" " + f["commit"]) if f.get("commit") else "", f["signature"], f["what"].replace("|", "/")[:400]))
 miss = json.load(open(os.path.join(ROOT, "seeded", "initially_missed.json")))
 sd = ["| Seeded change | What it does | Result | Signatures reported | Strengthening it prompted |", "|---|---|---|---|---|"]
-nc = nt = 0
+nc = nt = nout = 0
 for d in sorted(glob.glob(os.path.join(ROOT, "seeded", "*", ""))):
     m = json.load(open(os.path.join(d, "meta.json")))
     notes = m.get("breaks", "")
     first = next((l.strip("# ").strip() for l in notes.splitlines() if l.strip() and not l.startswith("```")), "")
     first = re.sub(r"^Change \d+\s*[—-]\s*", "", first)
     sig = m["ran"]["check_result"]["0"]["signatures"][:2]
-    nt += 1; nc += bool(m["caught_by_check"])
     nm = os.path.basename(d.rstrip("/"))
+    if m.get("ruling"):
+        nout += 1
+        sd.append("| %s | %s | not a violation (silent, correctly) | | %s |" % (nm, first[:140].replace("|", "/"), m["ruling"].replace("|", "/")[:500]))
+        continue
+    nt += 1; nc += bool(m["caught_by_check"])
     sd.append("| %s | %s | %s | %s | %s |" % (nm, first[:140].replace("|", "/"), ("caught" if m["caught_by_check"] else "MISSED") + (" (missed by the first version)" if nm in miss else ""), "; ".join("`%s`" % x[:90] for x in sig), miss.get(nm, "")))
 sd.append("")
-sd.append("%d of %d seeded changes are caught by the quick tier." % (nc, nt))
+sd.append("%d of %d seeded changes that break a property are caught by the quick tier; %d further seeded changes were judged not to break the property text (see their rows)." % (nc, nt, nout))
+# behaviour-preserving changes (the check must stay silent)
+bn = ["", "*Behaviour-preserving changes* (fresh sub-agents asked for realistic refactors/optimisations that keep the property true; `harness/try_benign.py`, quick tier, seeds 0 and 1):", "",
+      "| Change | Result | Signatures if an alarm was raised |", "|---|---|---|"]
+nb = na = 0
+for d in sorted(glob.glob(os.path.join(ROOT, "benign", "*", ""))):
+    m = json.load(open(os.path.join(d, "meta.json")))
+    nb += 1; na += bool(m["check_raised_alarm"])
+    sg = sorted({x for v in m["check_result"].values() for x in v["signatures"]})[:3]
+    notes = open(os.path.join(d, "notes.md")).read() if os.path.exists(os.path.join(d, "notes.md")) else ""
+    bn.append("| %s | %s | %s |" % (os.path.basename(d.rstrip("/")), "ALARM" if m["check_raised_alarm"] else "silent", "; ".join("`%s`" % x[:90] for x in sg) + ((" — " + m["note"]) if m.get("note") else "")))
+bn.append("")
+bn.append("%d of %d behaviour-preserving changes leave the check silent." % (nb - na, nb))
+sd += bn
 p = os.path.join(ROOT, "DESIGN.md")
 s = open(p).read()
 s = block(s, "STATUS", "\n".join(st)); s = block(s, "FINDINGS", "\n".join(ft)); s = block(s, "SEEDED", "\n".join(sd))
